@@ -161,10 +161,12 @@ def as_matrix(vectorizables, length=None, return_template=False, verbose=False):
     i = 0
     for i, sample in enumerate(vectorizables, 1):
         vector = sample.as_vector()
-        if not np.can_cast(vector.dtype, data.dtype, casting="same_kind"):
+        if not np.can_cast(vector.dtype, data.dtype, casting="safe"):
             # the template only fixes the dtype of the matrix as long as the
-            # later samples fit into it: widen (e.g. an integer template
-            # followed by float samples) rather than silently truncate
+            # later samples fit into it: widen (an integer template followed
+            # by float samples, an int32 template followed by int64 values, a
+            # float32 template followed by float64 samples) rather than
+            # silently truncate, wrap around or round
             data = data.astype(np.promote_types(data.dtype, vector.dtype))
         data[i] = vector
 
